@@ -64,6 +64,7 @@ partial def parseStmt : List String → Option (Stmt × List String)
     match parseExpr r with
     | some (e, ")" :: r1) => some (.assign (nat! x) e, r1)
     | _ => none
+  | "(" :: "decl" :: x :: ")" :: r => some (.decl (nat! x), r)
   | "(" :: "inc" :: x :: ")" :: r => some (.inc (nat! x), r)
   | "(" :: "dec" :: x :: ")" :: r => some (.dec (nat! x), r)
   | "(" :: "iow" :: o :: r =>
@@ -188,7 +189,8 @@ def doProg (line : String) (fs : List String) : List String × Option (String ×
     | none => ([s!"M {id} asm=!reject", srcLine], none)
     | some code =>
       let run := runCode env w code steps
-      let ramN := (decls.filter (· = false)).length
+      -- Usage_Monitor keeps the largest cell number ever handed out (+1), block-local cells included
+      let ramN := maxList ((memCells (allLocs p)).map (· + 1))
       let ns := findN env w code src.1 src.2 steps
       ([ s!"M {id} asm={";".intercalate (code.map Instr.text)}",
         s!"MR {id} regs={regCount code} ram={ramN} rom={code.length} ops={",".intercalate (opcodes code)}",
